@@ -206,6 +206,33 @@ def _gen_world_once(rng, k):
             comp['ins'].append(inp)
         _fill_math(rng, comp, K)
         comps.append(comp)
+    tap_src_group = None
+    if K.get('tap') and rng.random() < K['tap']:
+        # a "tap": one more root-level component reading a single entry of an output that lives in a subgroup
+        # (any output if there is no subgroup).  With both ends chosen as responses, the tap's adjoint
+        # right-hand side inside that subgroup is a multiple of one of the output's own seeds -- the case
+        # the reverse-mode right-hand-side cache (rhs_checking) exists for.
+        cands = [(c, o) for c in comps[1:] for o in c['outs'] if c['group']] or \
+                [(c, o) for c in comps[1:] for o in c['outs']]
+        if cands:
+            sc, so = rng.choice(cands)
+            if len(groups) == 1:
+                # no subgroup yet: the tapped component becomes a group of its own (a root-level solver's
+                # right-hand sides are unit seeds, never multiples of each other)
+                groups['g1'] = {'parent': '', 'prom': rng.random() < K['promote']}
+                sc['group'] = 'g1'
+            n = int(np.prod(so['shape']))
+            name = f'c{ncomp}'
+            tap = {'name': name, 'kind': 'aff', 'group': '', 'prom': False, 'outs': [], 'ins': [], 'A': {}, 'b': {},
+                   'fmt': {}, 'mf': False, 'tap_of': so['name']}
+            tap['outs'].append({'name': f'{name}_y0', 'shape': rng.choice([[1], [2]]), 'units': _pick_unit(rng, K)})
+            tap['ins'].append({'name': f'{name}_x0', 'shape': [1],
+                               'units': compatible(so['units'], rng) if K['units'] else so['units'],
+                               'src': so['name'], 'idx': {'k': 'int', 'v': rng.randint(-n, n - 1)}, 'flat': True,
+                               'via': 'connect'})
+            _fill_math(rng, tap, dict(K, quad=0.0, mf=0.0, approx=0.0))
+            comps.append(tap)
+            tap_src_group = sc['group'].split('.')[0] if rng.random() < 0.7 else sc['group']
     world = {'comps': comps, 'groups': groups, 'solvers': {}, 'cycle': None}
     # ---- optional feedback edge inside one group
     affs = [c for c in comps if c['kind'] in ('aff', 'imp')]
@@ -268,6 +295,11 @@ def _gen_world_once(rng, k):
                     ln = 'direct'
                 world['solvers'][g] = {'nl': 'runonce', 'ln': ln,
                                        'rhs_checking': rng.random() < K.get('rhs_checking', 0.3)}
+    if tap_src_group and tap_src_group not in world['solvers']:
+        ln = rng.choice(['direct', 'direct_csc', 'direct_dense', 'krylov'])
+        if any(c.get('mf') for c in comps) and ln.startswith('direct_'):
+            ln = 'direct'
+        world['solvers'][tap_src_group] = {'nl': 'runonce', 'ln': ln, 'rhs_checking': True}
     if '' not in world['solvers']:
         world['solvers'][''] = {'nl': 'runonce', 'ln': rng.choice(K['root_ln']),
                                 'rhs_checking': rng.random() < K.get('rhs_checking', 0.3)}
@@ -279,7 +311,7 @@ def _gen_world_once(rng, k):
     world['order'] = _orders(rng, world, K['shuffle'])
     world['auto_order'] = bool(K['shuffle'])
     # ---- design variables / responses
-    world['dvs'], world['resps'] = _gen_voi(rng, world)
+    world['dvs'], world['resps'] = _gen_voi(rng, world, K)
     return world
 
 
@@ -377,7 +409,7 @@ def _orders(rng, world, shuffle):
     return orders
 
 
-def _gen_voi(rng, world):
+def _gen_voi(rng, world, K=None):
     """Design variables among the independent variables, responses among component outputs; every
     response depends on at least one chosen design variable and vice versa (dependence taken from
     the reference model's own structure)."""
@@ -399,7 +431,48 @@ def _gen_voi(rng, world):
     rng.shuffle(cand)
     outs = list(outs)
     rng.shuffle(outs)
-    chosen_r = [o for o in outs if any(dep(o['name'], key) for _, _, key in cand)][:rng.randint(1, 3)]
+    if K and K.get('chain_resps') and rng.random() < K['chain_resps']:
+        # responses that depend on other responses: the reverse-mode right-hand-side cache (rhs_checking) is
+        # only consulted for those ("redundant adjoint systems"), so move a dependent pair to the front
+        pairs = [(a, b_) for a in outs for b_ in outs if a is not b_ and dep(b_['name'], a['name'])]
+        if pairs:
+            # best reach: a lives in a subgroup with its own direct/Krylov solver, b outside of it -- then b's
+            # adjoint right-hand side at that solver is often a multiple of one of a's
+            grp_of = {o['name']: c['group'] for c in comps for o in c['outs']}
+
+            def solver_group(o):
+                g = grp_of[o['name']]
+                while g:
+                    if world['solvers'].get(g, {}).get('ln', '').split('_')[0] in ('direct', 'krylov'):
+                        return g
+                    g = world['groups'][g]['parent']
+                return None
+            good = [(a, b_) for a, b_ in pairs if solver_group(a) and
+                    not (grp_of[b_['name']] + '.').startswith(solver_group(a) + '.')]
+            # ... surely so when b's component reads a single entry of a
+            thin = [(a, b_) for a, b_ in good
+                    if any(i.get('src') == a['name'] and int(np.prod(i['shape'])) == 1
+                           for c in comps if b_ in c['outs'] for i in c['ins'])]
+            if thin and rng.random() < 0.8:
+                good = thin
+            taps = [(a, b_) for a, b_ in pairs
+                    if any(c.get('tap_of') == a['name'] for c in comps if b_ in c['outs'])]
+            if taps and rng.random() < 0.8:
+                good = taps
+            if good and rng.random() < 0.8:
+                pairs = good
+                a, b_ = rng.choice(pairs)
+                if solver_group(a):
+                    world['solvers'][solver_group(a)]['rhs_checking'] = True
+            else:
+                a, b_ = rng.choice(pairs)
+            first = [a, b_] if rng.random() < 0.5 else [b_, a]
+            outs = first + [o for o in outs if o is not a and o is not b_]
+            chosen_r = [o for o in outs if any(dep(o['name'], key) for _, _, key in cand)][:rng.randint(2, 3)]
+        else:
+            chosen_r = [o for o in outs if any(dep(o['name'], key) for _, _, key in cand)][:rng.randint(1, 3)]
+    else:
+        chosen_r = [o for o in outs if any(dep(o['name'], key) for _, _, key in cand)][:rng.randint(1, 3)]
     chosen_d = [(kind, v, key) for kind, v, key in cand if any(dep(o['name'], key) for o in chosen_r)]
     chosen_d = chosen_d[:rng.randint(1, 3)]
     chosen_r = [o for o in chosen_r if any(dep(o['name'], key) for _, _, key in chosen_d)]
